@@ -1,3 +1,4 @@
+import AquaVerif.Generated.CropTable
 import AquaVerif.Proofs.Response
 import AquaVerif.Proofs.RealInstance
 import AquaVerif.Proofs.Catalogue
@@ -327,5 +328,15 @@ example : ResponseOK wheatResp := by decide +kernel
 example : ResponseOK maizeResp := by decide +kernel
 example : ResponseOK cottonResp := by decide +kernel
 example : RealPremises wheatResp := catalogue_premises_imply (by decide +kernel)
+
+
+/-- Tie to the source, re-proved on every run: every crop of the catalogue as /repo's
+`crop_params.py` defines it now (table regenerated by `harness/translate/croptable.py`, 37
+entries) satisfies the premises `ResponseOK`, hence (`catalogue_premises_imply` and the
+`catalogue_*` theorems above) all conclusions of this file. -/
+theorem all_catalogue_crops_satisfy_premises : ∀ c ∈ Aqua.Generated.cropTable, ResponseOK c :=
+  Aqua.Generated.cropTable_responseOK
+
+theorem catalogue_has_37_crops : Aqua.Generated.cropTable.length = 37 := Aqua.Generated.cropTable_count
 
 end Aqua.C17
